@@ -53,7 +53,8 @@ func newFSEnv(e *env, outer string) (*fsEnv, error) {
 // all-upper, all-lower, swapped, first letter toggled, last letter toggled.
 func caseVariants(s string) []string {
 	var idx []int
-	for i := 0; i < len(s); i++ {
+	// a scheme prefix is not part of the name (and is matched case-sensitively by design)
+	for i := strings.Index(s, "://") + 1; i < len(s); i++ {
 		c := s[i]
 		if c >= 'a' && c <= 'z' || c >= 'A' && c <= 'Z' {
 			idx = append(idx, i)
@@ -81,8 +82,17 @@ func caseVariants(s string) []string {
 		}
 		return out
 	}
-	add(strings.ToUpper(s))
-	add(strings.ToLower(s))
+	for _, up := range []bool{true, false} {
+		b := []byte(s)
+		for _, i := range idx {
+			if up {
+				b[i] &^= 0x20
+			} else {
+				b[i] |= 0x20
+			}
+		}
+		add(string(b))
+	}
 	b := []byte(s)
 	for _, i := range idx {
 		toggle(b, i)
@@ -95,6 +105,26 @@ func caseVariants(s string) []string {
 	toggle(b, idx[len(idx)-1])
 	add(string(b))
 	return out
+}
+
+// storeVariants: all case variants for a single-manifest store; for a larger
+// store the exact spelling and the spelling with every letter toggled.
+func storeVariants(store []string) func(string) []string {
+	if len(store) == 1 {
+		return caseVariants
+	}
+	return func(s string) []string {
+		b := []byte(s)
+		for i, c := range b {
+			if c >= 'a' && c <= 'z' || c >= 'A' && c <= 'Z' {
+				b[i] ^= 0x20
+			}
+		}
+		if string(b) == s {
+			return []string{s}
+		}
+		return []string{s, string(b)}
+	}
 }
 
 // regularFiles lists the regular files below dir, relative to dir.
@@ -157,6 +187,7 @@ func (r *fsResult) failf(sig, format string, a ...any) {
 // way the handlers do. rounds > 1 repeats each query (see main.go: Go map
 // iteration order inside getExistingName cannot be controlled from outside).
 func (f *fsEnv) legacyCase(store []string, rounds int, verbose bool) (res fsResult) {
+	variants := storeVariants(store)
 	defer func() {
 		if p := recover(); p != nil {
 			res.failf("C13/panic/legacy-store-flow", "legacy store flow panicked for store %q: %v", store, p)
@@ -164,15 +195,17 @@ func (f *fsEnv) legacyCase(store []string, rounds int, verbose bool) (res fsResu
 	}()
 	root := f.e.root
 	mdir := filepath.Join(root, "manifests")
+	for _, s := range store {
+		if !model.ParseName(s).IsValid() {
+			res.skipped = "store name rejected by model.ParseName: " + q(s)
+			return
+		}
+	}
 	os.RemoveAll(mdir)
 	created := make([]string, len(store))
 	parsed := make([]model.Name, len(store))
 	for i, s := range store {
 		n := model.ParseName(s)
-		if !n.IsValid() {
-			res.skipped = "store name rejected by model.ParseName: " + q(s)
-			return
-		}
 		want := filepath.Join(mdir, n.Host, n.Namespace, n.Model, n.Tag)
 		if confine(root, filepath.Join(mdir, n.Filepath()), "manifests", 5) != "" || confine(root, want, "manifests", 5) != "" {
 			// reported by the pure family; never write outside the store from the harness
@@ -203,7 +236,7 @@ func (f *fsEnv) legacyCase(store []string, rounds int, verbose bool) (res fsResu
 		class = "parts-mixed-across-manifests"
 	}
 	for i, s := range store {
-		for _, v := range caseVariants(s) {
+		for _, v := range variants(s) {
 			qn := model.ParseName(v)
 			if !qn.IsValid() || !qn.EqualFold(parsed[i]) {
 				res.failf("C13/case/model.ParseName/variant-parses-differently", "%s is accepted as %v but its case variant %s parses as %v (valid=%v)", q(s), modelParts(parsed[i]), q(v), modelParts(qn), qn.IsValid())
@@ -237,22 +270,25 @@ func (f *fsEnv) legacyCase(store []string, rounds int, verbose bool) (res fsResu
 
 // cacheCase is the same through the new client's DiskCache.
 func (f *fsEnv) cacheCase(store []string, verbose bool) (res fsResult) {
+	variants := storeVariants(store)
 	defer func() {
 		if p := recover(); p != nil {
 			res.failf("C13/panic/cache-store-flow", "DiskCache store flow panicked for store %q: %v", store, p)
 		}
 	}()
 	mdir := filepath.Join(f.cdir, "manifests")
+	for _, s := range store {
+		if _, xn, _, err := f.reg.ZZC13ParseNameExtended(s); err != nil || !xn.IsFullyQualified() {
+			res.skipped = "store name rejected by parseNameExtended: " + q(s)
+			return
+		}
+	}
 	os.RemoveAll(mdir)
 	os.MkdirAll(mdir, 0o777)
 	created := make([]string, len(store))
 	full := make([]string, len(store))
 	for i, s := range store {
-		_, xn, _, err := f.reg.ZZC13ParseNameExtended(s)
-		if err != nil || !xn.IsFullyQualified() {
-			res.skipped = "store name rejected by parseNameExtended: " + q(s)
-			return
-		}
+		_, xn, _, _ := f.reg.ZZC13ParseNameExtended(s)
 		want := filepath.Join(mdir, xn.Host(), xn.Namespace(), xn.Model(), xn.Tag())
 		np, err := blob.ZZC13NameToPath(xn.String())
 		if err != nil || confine(f.cdir, filepath.Join(mdir, np), "manifests", 5) != "" || confine(f.cdir, want, "manifests", 5) != "" {
@@ -286,7 +322,7 @@ func (f *fsEnv) cacheCase(store []string, verbose bool) (res fsResult) {
 		class = "wrong-manifest-among-several"
 	}
 	for i, s := range store {
-		vs := caseVariants(s)
+		vs := variants(s)
 		for _, v := range vs {
 			res.queries++
 			_, xv, _, err := f.reg.ZZC13ParseNameExtended(v)
@@ -309,7 +345,8 @@ func (f *fsEnv) cacheCase(store []string, verbose bool) (res fsResult) {
 		}
 		// removing through the last spelling must remove exactly that manifest
 		last := vs[len(vs)-1]
-		ok, err := f.reg.Unlink(last)
+		_, xl, _, _ := f.reg.ZZC13ParseNameExtended(last)
+		ok, err := f.reg.Unlink(xl.String())
 		_, statErr := os.Stat(created[i])
 		if err != nil || !ok || statErr == nil {
 			res.failf("C13/case/Registry.Unlink/"+class, "cache holds manifests %q; Unlink(%s) = %v, %v and the manifest %q still exists=%v", store, q(last), ok, err, created[i], statErr == nil)
